@@ -35,20 +35,24 @@ fn cfg_for(config: &str) -> GenCfg {
     "bu-backends" => { c.sim_fams_only = false; c.bottom_up = 60; c.all_roots_td = true; }
     "td-files" => { c.files = true; }
     "bu-files" => { c.files = true; c.bottom_up = 60; c.all_roots_td = true; }
-    "files-replay" => { c.files = true; c.replays = 2; c.bottom_up = 40; c.all_roots_td = true; }
+    "files-replay" => { c.files = true; c.replays = 0b1001; c.bottom_up = 40; c.all_roots_td = true; }
     "id-td" => { c.wrappers = true; }
     "id-bu" => { c.wrappers = true; c.bottom_up = 60; c.all_roots_td = true; }
     "v-td" => { c.class = Class::V; }
     "v-td-crash" => { c.class = Class::V; c.crash = true; }
     "v-bu-big" => { c.class = Class::V; c.bottom_up = 70; c.td_between = true; c.big = true; }
     "x-any-crash" => { c.class = Class::X; c.crash = true; }
-    "bu-big-replay" => { c.replays = 2; c.bottom_up = 100; c.big = true; }
+    "bu-big-replay" => { c.replays = 0b0011; c.bottom_up = 100; c.big = true; }
     "v-bu" => { c.class = Class::V; c.bottom_up = 50; c.td_between = true; }
     "m-td" => { c.class = Class::M; }
     "m-bu" => { c.class = Class::M; c.bottom_up = 60; c.all_roots_td = true; }
-    "td-replay" => { c.replays = 4; }
-    "bu-replay" => { c.replays = 4; c.bottom_up = 60; c.all_roots_td = true; }
-    "bu-mixed-replay" => { c.replays = 4; c.bottom_up = 50; c.td_between = true; }
+    "td-replay" => { c.replays = 0b1011; }
+    "td-replay-thread" => { c.replays = 0b0100; }
+    "td-replay-proc" => { c.replays = 0; c.proc_replay = true; }
+    "bu-replay-proc" => { c.replays = 0; c.proc_replay = true; c.bottom_up = 70; c.all_roots_td = true; c.big = true; }
+    "bu-replay" => { c.replays = 0b1011; c.bottom_up = 60; c.all_roots_td = true; }
+    "bu-replay-thread" => { c.replays = 0b0100; c.bottom_up = 60; c.all_roots_td = true; c.big = true; }
+    "bu-mixed-replay" => { c.replays = 0b1011; c.bottom_up = 50; c.td_between = true; }
     "bu-crash" => { c.crash = true; c.bottom_up = 50; c.all_roots_td = true; }
     _ => {}
   }
@@ -75,7 +79,7 @@ impl Engine for BuildEngine {
       _ => gen_program_w(rng, &cfg),
     };
     let (init, steps, faults) = gen_history(rng, &program, &cfg);
-    Scenario { hash_seed: Some(rng.next()), program, init, steps, faults, replays: cfg.replays }
+    Scenario { hash_seed: Some(rng.next()), program, init, steps, faults, replays: cfg.replays, proc_replay: cfg.proc_replay }
   }
 
   fn run(&self, scn: &Scenario, prop: &str) -> RunOutcome {
@@ -86,10 +90,25 @@ impl Engine for BuildEngine {
     if std::env::var("VERIF_DEBUG_LOG").is_ok() {
       for (i, l) in log_lines().iter().enumerate() { if !l.starts_with("Trk(") || std::env::var("VERIF_DEBUG_LOG").as_deref() == Ok("2") { eprintln!("{i:4} {l}"); } }
     }
+    if scn.proc_replay && out.harness_error.is_none() {
+      let base = log_lines();
+      out.stats.hit("replay_variant_second_process");
+      match replay_in_second_process(scn) {
+        Ok(d) => {
+          if d != digest(&base) {
+            out.violations.push(crate::common::Violation::new(&["C16"], "replay-diverged-process", 0, format!("replaying the history in a second process with OS-random hash seeds produced another event log (digest {d:016x} vs {:016x}, {} events here)", digest(&base), base.len())));
+          }
+        }
+        Err(e) => { out.harness_error = Some(format!("second-process replay failed: {e}")); }
+      }
+      // Restore this process's log for the variants below.
+      let mut s0 = scn.clone(); s0.replays = 0; s0.proc_replay = false;
+      let mut r = run::Runner::new(&s0, prop); r.run(); drop(r);
+    }
     if scn.replays > 0 && out.harness_error.is_none() {
       let base = log_lines();
       let base_digest = digest(&base);
-      for variant in 1..=scn.replays.min(4) {
+      for variant in (1..=4u8).filter(|v| scn.replays & (1 << (v - 1)) != 0) {
         let lines = replay_variant(scn, prop, variant);
         out.stats.hit(&format!("replay_variant_{variant}"));
         if digest(&lines) != base_digest {
@@ -145,6 +164,48 @@ impl Engine for BuildEngine {
     for t in 0..scn.program.tasks.len() {
       for v in variants(&scn.program.tasks[t].ops) { let mut s = scn.clone(); s.program.tasks[t].ops = v; c.push(s); }
     }
+    // Drop the last task / resource when nothing refers to it.
+    fn refs(ops: &[Op], t: usize, r: usize) -> (bool, bool) {
+      let (mut rt, mut rr) = (false, false);
+      for op in ops {
+        match op {
+          Op::Require { task, .. } => { if *task == t { rt = true; } }
+          Op::Read { res, .. } | Op::Write { res, .. } => { if *res == r { rr = true; } }
+          Op::If { then, els, .. } => { let (a, b) = refs(then, t, r); let (c2, d) = refs(els, t, r); rt |= a | c2; rr |= b | d; }
+          Op::Switch { res, cases } => { if *res == r { rr = true; } for cs in cases { let (a, b) = refs(cs, t, r); rt |= a; rr |= b; } }
+          _ => {}
+        }
+      }
+      (rt, rr)
+    }
+    {
+      let nt = scn.program.tasks.len();
+      let nr = scn.program.resources.len();
+      if nt > 1 {
+        let t = nt - 1;
+        let used_by_ops = scn.program.tasks.iter().any(|td| refs(&td.ops, t, usize::MAX).0);
+        let used_by_steps = scn.steps.iter().any(|st| match st { Step::TopDown { roots } => roots.contains(&t), Step::BottomUp { then_require, .. } => then_require.contains(&t), _ => false });
+        if !used_by_ops && !used_by_steps && scn.program.tasks[t].ops.is_empty() {
+          let mut s = scn.clone();
+          s.program.tasks.pop();
+          s.program.writer.retain(|_, w| *w != t);
+          c.insert(0, s);
+        }
+      }
+      if nr > 1 {
+        let r = nr - 1;
+        let used_by_ops = scn.program.tasks.iter().any(|td| refs(&td.ops, usize::MAX, r).1);
+        let used_by_steps = scn.steps.iter().any(|st| match st { Step::Change { res, .. } | Step::Touch { res } => *res == r, Step::BottomUp { report: Some(rep), .. } => rep.contains(&r), _ => false });
+        let used_by_faults = scn.faults.values().any(|f| f.check_err_res.contains(&r));
+        if !used_by_ops && !used_by_steps && !used_by_faults && scn.program.class != Class::V {
+          let mut s = scn.clone();
+          s.program.resources.pop();
+          s.program.writer.remove(&r);
+          s.init.retain(|(x, _)| *x != r);
+          c.insert(0, s);
+        }
+      }
+    }
     // Drop initial values.
     for i in 0..scn.init.len() { let mut s = scn.clone(); s.init.remove(i); c.push(s); }
     if scn.hash_seed != Some(0) { let mut s = scn.clone(); s.hash_seed = Some(0); c.push(s); }
@@ -173,6 +234,7 @@ fn digest(lines: &[String]) -> u64 {
 fn replay_variant(scn: &Scenario, prop: &str, variant: u8) -> Vec<String> {
   let mut s2 = scn.clone();
   s2.replays = 0;
+  s2.proc_replay = false;
   match variant {
     1 => { s2.hash_seed = Some(scn.hash_seed.unwrap_or(0) ^ 0x5DEECE66D_u64.wrapping_mul(variant as u64 + 1) ^ 0xA5A5_0000_1111); }
     2 => {
@@ -182,7 +244,7 @@ fn replay_variant(scn: &Scenario, prop: &str, variant: u8) -> Vec<String> {
         let cfg = GenCfg::default();
         let program = gen_program_w(&mut rng, &cfg);
         let (init, steps, faults) = gen_history(&mut rng, &program, &cfg);
-        let other = Scenario { hash_seed: Some(rng.next()), program, init, steps, faults, replays: 0 };
+        let other = Scenario { hash_seed: Some(rng.next()), program, init, steps, faults, replays: 0, proc_replay: false };
         let mut r = run::Runner::new(&other, prop);
         r.run();
       }
@@ -199,4 +261,35 @@ fn replay_variant(scn: &Scenario, prop: &str, variant: u8) -> Vec<String> {
   r.run();
   drop(r);
   log_lines()
+}
+
+pub fn log_lines_pub() -> Vec<String> { log_lines() }
+
+/// Runs the scenario in a fresh process (`sim digest-scn <file>`) with OS-random hash seeds; returns its log digest.
+fn replay_in_second_process(scn: &Scenario) -> Result<u64, String> {
+  use std::sync::atomic::{AtomicU64, Ordering};
+  static N: AtomicU64 = AtomicU64::new(0);
+  let mut s2 = scn.clone();
+  s2.replays = 0;
+  s2.proc_replay = false;
+  s2.hash_seed = None;
+  let base = if std::path::Path::new("/dev/shm").is_dir() { std::path::PathBuf::from("/dev/shm") } else { std::env::temp_dir() };
+  let path = base.join(format!("verif-scn-{}-{}.json", std::process::id(), N.fetch_add(1, Ordering::Relaxed)));
+  std::fs::write(&path, serde_json::to_string(&s2).map_err(|e| e.to_string())?).map_err(|e| e.to_string())?;
+  let exe = std::env::current_exe().map_err(|e| e.to_string())?;
+  let out = std::process::Command::new(exe).arg("digest-scn").arg(&path).output();
+  let _ = std::fs::remove_file(&path);
+  let out = out.map_err(|e| e.to_string())?;
+  let text = String::from_utf8_lossy(&out.stdout);
+  u64::from_str_radix(text.trim(), 16).map_err(|e| format!("{e}: {:?} {:?}", text, String::from_utf8_lossy(&out.stderr)))
+}
+
+pub fn digest_scenario_file(path: &str) -> i32 {
+  let Ok(text) = std::fs::read_to_string(path) else { return 2; };
+  let Ok(scn) = serde_json::from_str::<Scenario>(&text) else { return 2; };
+  let mut r = run::Runner::new(&scn, "C16");
+  r.run();
+  drop(r);
+  println!("{:016x}", digest(&log_lines()));
+  0
 }
